@@ -547,6 +547,15 @@ func (p *Parser) parseStmt(allowDeclaration bool) (stmt IStmt) {
 				return
 			}
 			stmt = p.parseAsyncFuncDecl()
+		} else if p.tt == ColonToken {
+			// async is an identifier and may be a label like any other
+			p.next()
+			prevDeflt := p.deflt
+			if p.tt == FunctionToken {
+				p.deflt = false
+			}
+			stmt = &LabelledStmt{async, p.parseStmt(true)}
+			p.deflt = prevDeflt
 		} else {
 			// expression
 			stmt = &ExprStmt{p.parseAsyncExpression(OpExpr, async)}
